@@ -506,6 +506,84 @@ class Wiring(Family):
                f"{'mixed' if '0' in d and '1' in d else 'all-admit' if '1' in d else 'all-refuse'}"
 
 
+class Component(Family):
+    """the limiter as the ONE middleware object of a protocol (`GeminiServerProtocol(handler, middleware=...)` takes any object
+    with `process_request`: a chain, or a single component such as a bare `RateLimiter`): a short history of requests on the
+    wire from a few addresses under the virtual clock is decided as the model decides it for the configured values, whether
+    the limiter is wrapped in a `MiddlewareChain` or handed over as it is.  The direct oracle is the limiter oracle."""
+
+    name = "component"
+    quick_n = 240
+    thorough_n = 4000
+
+    def setup(self):
+        from ..sim import mw_clock, mw_wiring
+
+        self.W, self.clock = mw_wiring, mw_clock
+
+    def gen(self, rng, n):
+        for k in range(n):
+            cap = rng.choice((0, 1, 1, 2, 3, 5))
+            rate = rng.choice(([0, 1], [1, 8], [1, 1024], [1, 2], [1, 1], [2, 1]))
+            one = 8 * rate[1] // rate[0] if rate[0] and (8 * rate[1]) % rate[0] == 0 else 8
+            t, evs = 0, []
+            for _ in range(rng.randint(1, cap + 5)):
+                t += rng.choice((0, 0, 0, 1, 8, one - 1 if one > 1 else 0, one, 16, 80, 2400))
+                evs.append([rng.choice((1, 1, 1, 2)), t])
+            yield {"cap": cap, "rate": rate, "retry": rng.choice((30, 1, 0, 600)), "evs": evs, "wrap": k % 2 == 1, "ipset": rng.randrange(len(IPSETS))}
+
+    def impl(self, case):
+        from nauyaca.protocol.response import GeminiResponse
+        from nauyaca.server.middleware import MiddlewareChain, RateLimitConfig, RateLimiter
+        from nauyaca.server.protocol import GeminiServerProtocol
+
+        now = [1000.0]
+        res = []
+
+        async def run():
+            rl = RateLimiter(RateLimitConfig(capacity=case["cap"], refill_rate=case["rate"][0] / case["rate"][1], retry_after=case["retry"]))
+            mw = MiddlewareChain([rl]) if case["wrap"] else rl
+
+            def factory():
+                return GeminiServerProtocol(lambda req: GeminiResponse(status=20, meta="text/gemini", body="ok"), middleware=mw)
+
+            for a, t8 in case["evs"]:
+                now[0] = 1000.0 + t8 / 8
+                res.append(await self.W.wire_status(factory, ip_text(case, a)))
+
+        with self.clock.patched_time(lambda: now[0]):
+            loop = asyncio.new_event_loop()
+            try:
+                loop.run_until_complete(run())
+            finally:
+                loop.close()
+        return {"dec": "".join("0" if st == "44" else "1" for st in res), "status": sorted(set(res))}
+
+    def model(self, case):
+        return f"bucket {case['cap']} {rat(*case['rate'])} 600 {case['retry']} " + " ".join(f"{a}@{rat(8000 + t8, 8)}" for a, t8 in case["evs"])
+
+    def expect(self, case, out):
+        assert out.startswith("ok "), out
+        return {"dec": out.split(" ")[1]}
+
+    def same(self, expected, obs):
+        return expected["dec"] == obs["dec"]
+
+    def oracle(self, case, obs):
+        if any(st not in ("20", "44") for st in obs["status"]):
+            return ("odd-status", f"a request through the limiter alone was answered with status {obs['status']}")
+        o = {"dec": obs["dec"], "lines": [f"44 (on the wire) {case['retry']}\r\n"] if "0" in obs["dec"] else []}
+        v = limiter_oracle(case, o)
+        if v:
+            how = "inside a MiddlewareChain" if case["wrap"] else "handed to the protocol as its middleware object, not wrapped in a chain"
+            return (v[0], f"RateLimiter(capacity={case['cap']}, refill_rate={F(*case['rate'])}) {how}: {v[1]}")
+        return None
+
+    def key(self, case, obs):
+        d = obs["dec"]
+        return f"{'chain' if case['wrap'] else 'bare'}:cap{min(case['cap'], 2)}:{'mixed' if '0' in d and '1' in d else 'all-admit' if '1' in d else 'all-refuse'}"
+
+
 # ----------------------------------------------------------------------------
 CROWDS = [3, 40, 130, 520, 1030, 2100, 4100, 10010, 16400]
 CROWDS_THOROUGH = [33000, 65600, 100010, 262200]
@@ -712,4 +790,4 @@ class Crowd(_Limiter):
         return cur
 
 
-FAMILIES = [Small(), History(), Wiring(), Crowd()]
+FAMILIES = [Small(), History(), Wiring(), Component(), Crowd()]
